@@ -10,9 +10,23 @@ def run(pid, tier):
     out = Outcome(pid, tier, 'other')
     cov = {}
     try:
+        from . import kani
+        crate_i = kani.instantiate('idxcheck')
+        ibin, _ = kani.build_native(crate_i, 'idxcheck')
+        plan = [p for p in unit_index.native_plan(tier) if p[0] == 'forwarders_native'][0]
+        nat = kani.native_exhaust(ibin, plan[0], plan[1])
+        rr_native_fail = [f for f in nat['failures'] if f['obligation'].startswith('run_rule')]
+        for f in rr_native_fail:
+            out.violation('native::forwarders_native::%s' % f['obligation'], 'native execution of the real function', 'obligation %s failed for input bytes %s' % (f['obligation'], f['input']),
+                          failing_input={'crate': 'idxcheck', 'harness': 'forwarders_native', 'bytes': f['input'], 'failed_on_real_code': [f['obligation']]})
+        cov['native_run_rule_cross_check'] = {'evaluated': nat['evaluated'], 'failures': len(rr_native_fail)}
         v = unit_index.run_verus_part()
         if v['inconclusive']:
-            out.inconclusive.append('verus: ' + v['inconclusive'])
+            if not rr_native_fail:
+                out.proof_lost.append('verus could not process the index unit that carries the run_rule contract (%s); the native cross-check of run_rule passed'
+                                      % v['inconclusive'].strip().split('\n')[0][:300])
+            else:
+                out.inconclusive.append('verus: ' + v['inconclusive'])
         for f in v['failures']:
             if f['fn'] == 'run_rule':
                 out.violation(f['obligation'], 'verus', f['verifier_output'])
@@ -20,7 +34,7 @@ def run(pid, tier):
         cov['verus_run_rule'] = {'functions': [[f[0], f[2]] for f in rr], 'unit': v['path']}
         n_ob = len(rr)
         n_ok = sum(1 for f in rr if f[2])
-        if not rr and not v['inconclusive']:
+        if not rr and not v['inconclusive'] and not out.proof_lost:
             out.inconclusive.append('run_rule was not verified (function missing from the Verus result)')
     except (common.Inconclusive, LostAnchor) as ex:
         out.inconclusive.append('index unit (run_rule): %s' % ex)
